@@ -22,6 +22,9 @@ Reasons(r) ==
           \cup (IF ReportedP(file) \ Reported(r) # {} THEN {"finding-wrongly-suppressed"} ELSE {}))
     \cup (IF ToSet(r.unused) = { c.line : c \in UnusedP(file) } /\ Len(r.unused) = Cardinality(ToSet(r.unused)) THEN {}
           ELSE {"unused-suppression-report"})
+    \* the project's second file: one suppression comment that silences nothing, whether or not any rule applies to the file
+    \cup (IF ~r.outside.checked \/ r.outside.reports = << <<"unused-suppression", r.outside.line>> >> THEN {}
+          ELSE {"unused-suppression-report-in-the-second-file"})
 Drift(r) ==
     LET file == FileOf(r.layout) IN
     IF Reported(r) = ReportedI(file) /\ ToSet(r.unused) = { c.line : c \in UnusedI(file) } THEN {} ELSE {"table-model"}
